@@ -52,7 +52,16 @@ fn run_once(bytes: &[u8], f: Filter, dest: Dest, stdin: bool, want_stats: bool) 
     args.extend(filter_args(Some(f)));
     let outp = scratch.join("out.raw");
     match dest {
-        Dest::File => args.extend(["-o".to_string(), outp.display().to_string()]),
+        Dest::File => {
+            // the destination may exist already: nothing (1 of 3), a short stale file, a stale file longer than any
+            // output - the result must be the new output alone in all three cases
+            match (bytes.len() / 16 + stdin as usize) % 3 {
+                1 => std::fs::write(&outp, [0xABu8; 7]).map_err(|e| e.to_string())?,
+                2 => std::fs::write(&outp, vec![0xCDu8; bytes.len() + 4096]).map_err(|e| e.to_string())?,
+                _ => {}
+            }
+            args.extend(["-o".to_string(), outp.display().to_string()])
+        }
         Dest::ExplicitStdout => args.extend(["-o".to_string(), "stdout".to_string()]),
         Dest::ImplicitStdout => {}
     }
@@ -338,7 +347,7 @@ pub fn run(tier: Tier) -> i32 {
     rep.cov("partition_checks", json!(partitions));
     rep.cov("distinct_nontrivial", json!(nontrivial.len()));
     rep.cov("exhaustive", json!(true));
-    rep.cov("rule", json!("CLI runs for: all link patterns over 3 links up to the tier's length x every present link/FEE/layer-stave value + one absent each x {-o file, implicit stdout, -o stdout} x {file, stdin}; batch multiples; each header byte of a non-first packet in {0,0xFF,0xA5}; payload totals > 2^16. non-trivial = the filter selects a proper non-empty subset of the packets"));
+    rep.cov("rule", json!("CLI runs for: all link patterns over 3 links up to the tier's length x every present link/FEE/layer-stave value + one absent each x {-o file, implicit stdout, -o stdout} x {file, stdin}; batch multiples; each header byte of a non-first packet in {0,0xFF,0xA5}; payload totals > 2^16; the -o destination does not exist / holds 7 stale bytes / holds a stale file longer than the output (rotating). non-trivial = the filter selects a proper non-empty subset of the packets"));
     if let Some(c) = cases.get(cases.len() / 3) {
         rep.sample(json!({"label": c.label, "filter": filter_json(c.filter), "dest": format!("{:?}", c.dest), "stdin": c.stdin, "input_bytes": c.bytes.len()}));
     }
